@@ -13,9 +13,9 @@ CFGS = {
 CASE_RE = re.compile(r'^<<"CASE", (".*")>>$')
 
 
-def mc_generic(work, module, consts, invariants, timeout=3000):
+def mc_generic(work, module, consts, invariants, timeout=3000, spec="Spec"):
     """Runs a design-check / generator module; returns the emitted cases and TLC's statistics."""
-    cfg = "CONSTANTS\n%sSPECIFICATION Spec\nINVARIANTS %s EmitCase\nCHECK_DEADLOCK FALSE\n" % (consts, invariants)
+    cfg = "CONSTANTS\n%sSPECIFICATION %s\nINVARIANTS %s EmitCase\nCHECK_DEADLOCK FALSE\n" % (consts, spec, invariants)
     out, st = vlib.tlc(work, module, cfg, workers=vlib.NCPU, timeout=timeout, heap="8g")
     if "is violated" in out or "Error:" in out or st["rc"] != 0:
         brief = "\n".join(l[:300] for l in out.splitlines() if not l.startswith('<<"CASE"'))
@@ -80,6 +80,8 @@ def trivial(e):
     ev = e.get("ev")
     if ev == "prim":
         return not e.get("u") and not e.get("data")
+    if ev == "hist":
+        return not any(o.get("ret") for o in e.get("out", {}).get("steps", []))
     return False
 
 
